@@ -300,6 +300,11 @@ class C04(PropertyCheck):
             c["eps"] = q(rng.choice([F(1, 1024), F(1, 4), F(1e-3), F(1, 64)]))
             c["tag"] = f"rand_{kind}_{kshape[0]}x{kshape[1]}_{'signed' if signed else 'nonneg'}_{k}obj"
             yield c
+            mappers = [o for o in c["objs"] if o["kind"] != "func"]
+            if mappers and rng.random() < 0.5:
+                # the util functions named by the property, on the same dataset and its first mapper
+                yield {**c, "kind": "utils", "objs": [mappers[0]],
+                       "tag": f"utils_{kshape[0]}x{kshape[1]}_{'signed' if signed else 'nonneg'}_{mappers[0]['kind']}"}
         # 3. the mirroring routine alone, on sparse asymmetric matrices
         for _ in range(40 if tier == "quick" else 400):
             n = rng.randint(1, 6)
@@ -321,6 +326,8 @@ class C04(PropertyCheck):
                 return {"err": _exc_kind(e)}
             raise
         objs = build_objects(aa, mask, ds, case)
+        if case.get("kind") == "utils":
+            return self._run_utils(aa, mask, ds, objs[0], case)
         tables = []
         for o, spec in zip(objs, case["objs"]):
             if spec["kind"] == "func":
@@ -363,6 +370,52 @@ class C04(PropertyCheck):
             obs[key] = o
         return obs
 
+    def _run_utils(self, aa, mask, ds, mapper, case):
+        """the util functions the property names, observed in order-insensitive dense form."""
+        from autoarray.inversion.inversion.imaging import inversion_imaging_util as iu
+
+        kern = np.asarray(ds.psf.native)
+        if not np.all(np.isfinite(kern)):
+            raise Skip("PSF normalisation of a zero-sum kernel")
+        nfs = mask.derive_indexes.native_for_slim
+        n = int(mask.pixels_in_mask)
+        img_n, noise_n = np.array(ds.data.native), np.array(ds.noise_map.native)
+        wtd = iu.w_tilde_data_imaging_from(image_native=img_n, noise_map_native=noise_n,
+                                           kernel_native=kern, native_index_for_slim_index=nfs)
+        wfull = iu.w_tilde_curvature_imaging_from(noise_map_native=noise_n, kernel_native=kern,
+                                                  native_index_for_slim_index=nfs)
+        pre, idxs, lens = iu.w_tilde_curvature_preload_imaging_from(
+            noise_map_native=noise_n, kernel_native=kern, native_index_for_slim_index=nfs)
+        upper = np.zeros((n, n))      # the matrix the (preload, indexes, lengths) triple encodes
+        k = 0
+        for a in range(n):
+            for _ in range(int(lens[a])):
+                upper[a, int(idxs[k])] += pre[k]
+                k += 1
+        um = mapper.unique_mappings
+        pix = int(mapper.params)
+        enc = np.zeros((n, pix))      # the matrix the unique mappings encode
+        for d in range(n):
+            for j in range(int(um.pix_lengths[d])):
+                enc[d, int(um.data_to_pix_unique[d, j])] += um.data_weights[d, j]
+        wt = ds.w_tilde
+        dv = iu.data_vector_via_w_tilde_data_imaging_from(
+            w_tilde_data=wtd, data_to_pix_unique=um.data_to_pix_unique.astype("int"),
+            data_weights=um.data_weights, pix_lengths=um.pix_lengths.astype("int"), pix_pixels=pix)
+        cur = iu.curvature_matrix_via_w_tilde_curvature_preload_imaging_from(
+            curvature_preload=wt.curvature_preload, curvature_indexes=wt.indexes, curvature_lengths=wt.lengths,
+            data_to_pix_unique=um.data_to_pix_unique.astype("int"), data_weights=um.data_weights,
+            pix_lengths=um.pix_lengths.astype("int"), pix_pixels=pix)
+        t = mapper_tables(mapper)
+        t["has_reg"] = True
+        return {
+            "_tables": [t],
+            "_kernel": {"kh": int(kern.shape[0]), "kw": int(kern.shape[1]), "vals": qlist(kern.ravel())},
+            "w_tilde_data": qlist(wtd), "w_tilde": qmat(wfull), "preload_upper": qmat(upper),
+            "unique_encodes": qmat(enc), "mapping_matrix": qmat(np.asarray(mapper.mapping_matrix)),
+            "data_vector": qlist(dv), "curvature": qmat(cur),
+        }
+
     # ------------------------------------------------------------------ model
     def model_requests(self, case, impl_obs):
         if case.get("kind") == "mirrored":
@@ -373,6 +426,9 @@ class C04(PropertyCheck):
         m = mask_from_json(case["mask"]).ravel()
         data = [v for v, mk in zip(case["data"], m) if not mk]
         noise = [v for v, mk in zip(case["noise"], m) if not mk]
+        if case.get("kind") == "utils":
+            return [{"op": "c04.wtilde_utils", "mask": case["mask"], "kernel": impl_obs["_kernel"], "data": data,
+                     "noise": noise, "mapper": impl_obs["_tables"][0]}]
         base = {"op": "c04.inversion", "mask": case["mask"], "kernel": impl_obs["_kernel"], "data": data,
                 "noise": noise, "objs": impl_obs["_tables"], "eps": case["eps"]}
         if "_H" in impl_obs:
@@ -383,6 +439,25 @@ class C04(PropertyCheck):
         if case.get("kind") == "mirrored":
             r = responses[0]
             return {"mirrored": r["ok"]} if "ok" in r else {"err": r.get("err")}
+        if case.get("kind") == "utils":
+            r = responses[0]
+            if "ok" not in r:
+                return {"err": r.get("err")}
+            o = r["ok"]
+            n = len(o["w_tilde_data"])
+
+            def dense(rows, width):
+                m = [[Fraction(0)] * width for _ in rows]
+                for a, row in enumerate(rows):
+                    for b, v in row:
+                        m[a][b] += Fraction(v)
+                return qmat(m)
+
+            return {"w_tilde_data": o["w_tilde_data"], "w_tilde": o["w_tilde"],
+                    "preload_upper": dense(o["preload"], n),
+                    "unique_encodes": dense(o["unique"], len(o["mapping_matrix"][0]) if o["mapping_matrix"] else 0),
+                    "mapping_matrix": o["mapping_matrix"], "data_vector": o["data_vector"],
+                    "curvature": o["curvature"]}
         if len(responses) == 1:
             r = responses[0]
             return r["ok"] if "ok" in r else {"err": r.get("err")}
@@ -403,6 +478,8 @@ class C04(PropertyCheck):
             return float("inf")
 
     def compare(self, case, impl_obs, model_obs, cmp):
+        if case.get("kind") == "utils" and "err" not in impl_obs:
+            return cmp.diff({k: v for k, v in impl_obs.items() if not k.startswith("_")}, model_obs)
         if case.get("kind") == "mirrored" or "err" in impl_obs:
             return cmp.diff({k: v for k, v in impl_obs.items() if k != "msg"}, model_obs)
         for key in ("mapping", "w_tilde"):
@@ -474,6 +551,11 @@ class C04(PropertyCheck):
             if t["kind"] == "func":
                 M = _mat(t["matrix"])
             else:
+                # contract assumed by the theorems (BlocksOK): every data pixel owns sub_size^2 consecutive sub-pixels
+                want = [d for d in range(n) for _ in range(t["sub_size"][d] ** 2)]
+                if t["slim_for_sub"] != want or len(t["sub_rows"]) != len(want):
+                    return False, ("modelled-not-verified contract broken: slim_index_for_sub_slim_index is not "
+                                   "every data pixel repeated sub_size^2 times in order")
                 M = np.zeros((n, t["pixels"]))
                 frac = _arr(t["sub_fraction"])
                 for s, row in enumerate(t["sub_rows"]):
@@ -484,14 +566,6 @@ class C04(PropertyCheck):
                 noreg += list(range(off, off + M.shape[1]))
             off += M.shape[1]
             Ms.append(M)
-        B = np.hstack([P @ M for M in Ms])
-        Dx = B.T @ (data / noise ** 2)
-        Fx = (B / noise[:, None]).T @ (B / noise[:, None])
-        eps = _f(case["eps"])
-        for i in noreg:
-            Fx[i, i] += eps
-        H = _mat(obs["_H"]) if "_H" in obs else None
-        all_funcs = all(t["kind"] == "func" for t in obs["_tables"])
 
         def close(a, b, what):
             a, b = np.asarray(a, float), np.asarray(b, float)
@@ -502,6 +576,34 @@ class C04(PropertyCheck):
                 i = np.unravel_index(np.argmax(np.abs(a - b)), a.shape)
                 return f"{what}: max |Δ| = {float(np.max(np.abs(a - b))):.3e} at {tuple(int(v) for v in i)}"
             return None
+
+        if case.get("kind") == "utils":
+            M = Ms[0]
+            W = P.T @ (P / (noise ** 2)[:, None])
+            wtd = P.T @ (data / noise ** 2)
+            up = _mat(obs["preload_upper"])
+            for what, got, exp in (
+                    ("w_tilde_data_imaging_from != P^T N^-1 d", _arr(obs["w_tilde_data"]), wtd),
+                    ("w_tilde_curvature_imaging_from != P^T N^-1 P", _mat(obs["w_tilde"]), W),
+                    ("preload is not the upper triangle of W with the diagonal halved",
+                     up, np.triu(W, 1) + np.diag(np.diag(W)) / 2.0),
+                    ("unique mappings do not encode the mapping matrix", _mat(obs["unique_encodes"]), M),
+                    ("mapper.mapping_matrix != table meaning", _mat(obs["mapping_matrix"]), M),
+                    ("data_vector_via_w_tilde_data_imaging_from != M^T w_tilde_data", _arr(obs["data_vector"]), M.T @ wtd),
+                    ("curvature_matrix_via_w_tilde_curvature_preload_imaging_from != M^T W M",
+                     _mat(obs["curvature"]), M.T @ W @ M)):
+                d = close(got, exp, what)
+                if d:
+                    return False, d
+            return True, ""
+        B = np.hstack([P @ M for M in Ms])
+        Dx = B.T @ (data / noise ** 2)
+        Fx = (B / noise[:, None]).T @ (B / noise[:, None])
+        eps = _f(case["eps"])
+        for i in noreg:
+            Fx[i, i] += eps
+        H = _mat(obs["_H"]) if "_H" in obs else None
+        all_funcs = all(t["kind"] == "func" for t in obs["_tables"])
 
         recs = {}
         for key in ("mapping", "w_tilde"):
